@@ -419,3 +419,29 @@ def r3_flatten_paths(text):
         fired += 1
     out.append(text[last:])
     return ''.join(out), fired
+
+
+def r7_let_else_continue(text):
+    """R7e: `let PAT = E else { continue; }; REST` (REST = the remainder of the enclosing loop body) is emitted as
+    `if let PAT = E { REST }` - same meaning; the verifier's for-loops do not support `continue`."""
+    fired = 0
+    while True:
+        m = mask(text)
+        mo = re.search(r'\blet\s+([^=;]+?)\s*=\s*([^;{}]+?)\s*else\s*\{\s*continue\s*;?\s*\}\s*;', m)
+        if not mo:
+            break
+        # the enclosing block ends at the first unmatched '}' after the statement
+        k, depth = mo.end(), 0
+        while k < len(m):
+            ch = m[k]
+            if ch == '{':
+                depth += 1
+            elif ch == '}':
+                if depth == 0:
+                    break
+                depth -= 1
+            k += 1
+        rest = text[mo.end():k]
+        text = text[:mo.start()] + 'if let %s = %s {%s}\n' % (text[mo.start(1):mo.end(1)], text[mo.start(2):mo.end(2)], rest) + text[k:]
+        fired += 1
+    return text, fired
